@@ -8,6 +8,9 @@ Definition v_xopts (v : val) : xopts :=
   mkxopts (vN (vnth 0 v)) (vbool (vnth 1 v)) (vN (vnth 2 v)) (vbool (vnth 3 v))
           (vN (vnth 4 v)) (vN (vnth 5 v)).
 
+(* optional fields 6, 7 of the options: UseDataPadding, UseIndexPadding as passed to WrapV1 *)
+Definition v_wrapopts (v : val) : wrapopts := mkwrapopts (v_xopts v) (vN (vnth 6 v)) (vN (vnth 7 v)).
+
 Definition v_file (f : file) : val :=
   match f with None => VL [VT "absent"] | Some b => VL [VT "file"; VB b] end.
 Definition file_of_v (v : val) : file :=
@@ -86,7 +89,7 @@ Definition run_xwrap (input : val) : val :=
   let mode := vN (vnth 1 input) in
   if mode =? 0 then
     (* in memory: no file is created; on error nothing was written *)
-    match wrap_bytes hdr o (vB (vnth 2 input)) with
+    match wrap_bytes_opts hdr sort_by_digest (v_wrapopts (vnth 0 input)) (vB (vnth 2 input)) with
     | Ok w => VL [VT "nil"; v_file (Some (vB (vnth 2 input))); v_file (Some w)]
     | Err e => VL [v_err e; v_file (Some (vB (vnth 2 input))); v_file (Some [])]
     end
